@@ -286,7 +286,7 @@ def b_random(tier, seed):
 
 MALFORMED = ["a b", "a +", "+", "(a", "a)", "a + (b", "a + b)", "f(a", "f(a,, b)", "f(, a)", "a[", "a[b", "a]", "a if b", "a if b else", "a else b", "if a else b", "a . 3", "a.",
              "a * * b", "a // ", "a ** ", "not", "~", "a ! b", "a = b", "f(k=a, b)", "a $ b", "1 2", "a 1", "(a, b) c", "a (b) c d", "a + b c", "a[b] c", "a.b c", "f(a) b", "'x'",
-             "a ? b", "a b + c", "(a))", "((a)", "[a", "a, b)", "f(a b)"]
+             "a ? b", "a b + c", "(a))", "((a)", "[a", "a, b)", "f(a b)", "a and2", "a or1", "a if b else5", "not3 4", "a if4 else b", "f(x=1, x=2)"]
 
 
 def b_malformed(tier):
@@ -307,8 +307,27 @@ def b_malformed(tier):
     return b
 
 
+def b_identifiers(tier):
+    """Names that start with, end with or contain a keyword / literal name: the lexer must keep them whole."""
+    b = BoundedRun("identifier-lexing", rule="identifiers made of a keyword or constant name (and, or, not, if, else, True, False) followed or preceded by letters, digits or "
+                   "underscores (not3, or1, and2, if4, else5, order, nothing, iffy, android, Truex, True1, Falsey, xor, band, elsewhere, notify, _if, if_, x_or_y) used as an "
+                   "operand, in every binary / unary operator position, as a call argument, keyword name, attribute name and subscript: same value as Python's eval; strings that "
+                   "juxtapose a keyword and a number without a space where Python rejects it must raise the parse error", bound="21 names x 12 contexts, 2 environments",
+                   functions=["Parser.lex_table", "Parser.parse_terminal", "Parser.parse_arglist"])
+    names = ["not3", "or1", "and2", "if4", "else5", "order", "nothing", "iffy", "android", "Truex", "True1", "Falsey", "xor", "band", "elsewhere", "notify", "_if", "if_", "x_or_y",
+             "note", "a1"]
+    fns = ["Parser.lex_table"]
+    for i, nm in enumerate(names):
+        extra = {nm: 5 + i, "f": _F.f, "o": type("O", (), {nm: 9 + i})(), "v": list(range(40))}
+        ctxs = [f"{nm}", f"a + {nm}", f"{nm} * a", f"-{nm}", f"not {nm}", f"a and {nm}", f"{nm} or a", f"a if {nm} else b", f"{nm} if a else b", f"f({nm}, a)", f"f(a, {nm}={nm})",
+                f"o.{nm}", f"v[{nm}]", f"{nm} < a", f"a ** {nm} % 7", f"({nm}, a)"]
+        for s_ in ctxs:
+            compare(b, s_, "ab", fns, extra_env=extra, vals=[0, 2])
+    return b
+
+
 def bounded(tier, seed, procs):
-    return [b_skeletons(tier, seed), b_ternary_postfix(tier, seed), b_random(tier, seed), b_malformed(tier)]
+    return [b_skeletons(tier, seed), b_ternary_postfix(tier, seed), b_random(tier, seed), b_malformed(tier), b_identifiers(tier)]
 
 
 # ----------------------------------------------------------------------------- proved kernel: binding-power table
